@@ -408,6 +408,16 @@ class RegexParser:
                 # These need special handling - return as-is for now
                 # The compiler will expand them
                 return "\\" + escaped
+            # Numeric and control escapes mean the same as outside a class
+            if escaped == "x":
+                return self._parse_hex_escape().char
+            if escaped == "u":
+                return self._parse_unicode_escape().char
+            if escaped == "c":
+                ctrl = self._peek()
+                if ctrl is not None and ctrl.isascii() and ctrl.isalpha():
+                    self._advance()
+                    return chr(ord(ctrl.upper()) - 64)
             # Literal escape
             return escaped
 
